@@ -14,7 +14,10 @@ Tie to the code (model: coq/theories/StateMachine.v, theorems: coq/props/C17.v):
                     every simulant at the same clock time by SINGLE-simulant get_draw requests (so the model's draws do not
                     depend on the order the machine uses), snapshots the state table, calls Machine.transition and snapshots
                     again; in half of the calls it first runs the same request in another order and two simulants on their
-                    own (state column restored in between) - C17_local observed directly.
+                    own (state column restored in between) - C17_local observed directly.  States are subclasses
+                    overriding the public hooks transition_side_effect / cleanup_effect: every hook call (state, group, the
+                    group's state column at that moment) of the call and of the Machine.cleanup that follows is logged and
+                    compared with the model's log; about one request in eight repeats a label.
   stream `tset`     stand-alone TransitionSets (real Transition / Trigger objects, set_active / set_inactive histories)
                     whose stream is a stub that hands chosen draws to the real `_choice`: boundary-exact draws, draw 0.0
                     (finding F-G when the first weight is 0), 1 - 2^-53, small denominators.
@@ -40,13 +43,17 @@ ASSUMPTIONS = [
     "in another order than its argument is outside the property",
     "the draws given to the model are those of each transition set's own stream at the same clock time (C02)",
     "transient states form acyclic chains (a cycle of transient states recurses without bound in the real code: F-K)",
-    "request indexes have no duplicates and contain existing simulants only",
+    "request indexes contain existing simulants only (labels may repeat); a hook's group is compared as a set",
+    "transition_side_effect / cleanup_effect calls with an EMPTY index (the code makes them for empty groups) are ignored",
 ]
 TRUSTED = [
     "C17: StateMachine.v transcribes state_machine.py (_next_state, _groupby_new_state, Transition.probability, "
     "TransitionSet.choose_new_state/_normalize_probabilities, Machine.transition) and stream._choice in exact arithmetic",
     "C17: the order in which _next_state walks the groups (sorted by str(output)) is read off the live objects by the "
     "harness (ranks of str(state)); it only matters when a call raises half-way",
+    "C17: no private attribute is read: streams are found through public names or by type, hooks are observed by overriding "
+    "the public State.transition_side_effect / cleanup_effect; the module-private grouping helper is used only if present "
+    "(cases that need it are skipped and counted otherwise)",
     "C17: the `tset` stream gives the TransitionSet a real RandomnessStream whose get_draw returns the chosen draws",
 ]
 CLAIM = {
@@ -55,7 +62,9 @@ CLAIM = {
             "Machine.transition puts every tracked requested simulant where its OWN row and draws lead (closed form "
             "`own_destination`, equal to transitioning it alone), which is a declared successor followed through transient "
             "states or its own state; everybody else is untouched; a simulant moved into a non-transient state is not moved "
-            "again; zero-probability (incl. inactive triggered) transitions are never taken and a sole probability-1 "
+            "again; every transition_side_effect hook runs after the state write, exactly once per write of a simulant and never "
+            "for an unmoved one, and cleanup hands each simulant to the hook of the state it is in, once; zero-probability (incl. "
+            "inactive triggered) transitions are never taken and a sole probability-1 "
             "transition always is, under the exact F-G guard; rows with two 1s, total 0 without self transition or total > "
             "1+1e-08 with it are rejected before anything is written.  The model is tied to /repo/src by running generated "
             "machines on real contexts with the draws of the real streams and letting Coq compare the predicted state column "
@@ -63,7 +72,7 @@ CLAIM = {
     "note": "Exact rational arithmetic: float rounding is outside (rows are dyadic-exact or far from boundaries; skipped "
             "cases are counted).  Open finding F-G (draw exactly 0.0 with first weight 0) is excluded by an explicit guard "
             "and reproduced by the tset stream.  Transient cycles (F-K) only return OutOfFuel in the model.  Sampled "
-            "correspondence, not exhaustive; transition side effects / cleanup hooks are not modelled.",
+            "correspondence, not exhaustive.",
 }
 LEVEL_NOTE = ""
 
@@ -314,6 +323,10 @@ def gen_machine(rng):
             k = rng.randrange(1, len(idx))
             idx = idx[k:] + idx[:k]                   # Index(high part).append(Index(low part))
             split = len(idx) - k
+        if idx and rng.random() < 0.12:
+            for _ in range(rng.choice([1, 1, 2])):                      # a label requested twice
+                idx.insert(rng.randrange(len(idx) + 1), rng.choice(idx))
+            split = min(split, len(idx) - 1)
         calls.append({"rows": rows, "ops": ops, "idx": idx, "order": order, "split": split, "births": births,
                       "local": rng.random() < 0.5,
                       "untrack": [l for l in range(nc) if rng.random() < 0.12],
@@ -330,9 +343,41 @@ def sname(i):
     return f"s{i}" if i >= 0 else "zz"
 
 
-def build_machine(case, tables):
+def stream_of(state):
+    """the RandomnessStream of a state's transition set: by its public attribute names, else looked up BY TYPE (a rename or
+    a restructuring of these attributes is not a change of behaviour)"""
+    from vivarium.framework.randomness.stream import RandomnessStream
+    from vivarium.framework.state_machine import TransitionSet
+    ts = getattr(state, "transition_set", None)
+    if not isinstance(ts, TransitionSet):
+        ts = next((v for v in vars(state).values() if isinstance(v, TransitionSet)), None)
+    if ts is None:
+        return None
+    r = getattr(ts, "random", None)
+    if not isinstance(r, RandomnessStream):
+        r = next((v for v in vars(ts).values() if isinstance(v, RandomnessStream)), None)
+    return r
+
+
+def build_machine(case, tables, hooks=None):
+    """hooks: {"side": fn(state_name, index), "cleanup": fn(state_name, index)} - the public overridable hooks of State"""
     import pandas as pd
     from vivarium.framework.state_machine import Machine, State, Transition, TransientState, Trigger
+
+    hooks = hooks or {}
+
+    class HState(State):
+        def transition_side_effect(self, index, event_time):
+            if "side" in hooks:
+                hooks["side"](self.state_id, index)
+
+        def cleanup_effect(self, index, event_time):
+            if "cleanup" in hooks:
+                hooks["cleanup"](self.state_id, index)
+
+    class HTransientState(TransientState):
+        transition_side_effect = HState.transition_side_effect
+        cleanup_effect = HState.cleanup_effect
 
     def pf(si, ti):
         def f(index):
@@ -343,7 +388,7 @@ def build_machine(case, tables):
 
     objs = []
     for i, s in enumerate(case["states"]):
-        cls = TransientState if s["transient"] else State
+        cls = HTransientState if s["transient"] else HState
         objs.append(cls(sname(i), allow_self_transition=s["null"]))
     trans = {}
     for i, s in enumerate(case["states"]):
@@ -361,8 +406,19 @@ def execute_machine(case):
     from vivarium.framework.engine import SimulationContext
     boot.reset_contexts()
     tables = {}
-    machine, objs, trans = build_machine(case, tables)
     log = {"calls": [], "errors": []}
+    rec_hooks = {"on": False, "side": [], "cleanup": []}
+
+    def on_side(state_name, index):
+        if rec_hooks["on"] and len(index):
+            seen = list(sim.get_population(untracked=True).loc[index, "st"])     # the state column as the hook sees it
+            rec_hooks["side"].append((state_name, [int(l) for l in index], seen))
+
+    def on_cleanup(state_name, index):
+        if rec_hooks["on"] and len(index):
+            rec_hooks["cleanup"].append((state_name, [int(l) for l in index]))
+
+    machine, objs, trans = build_machine(case, tables, {"side": on_side, "cleanup": on_cleanup})
     n = case["n"]
     crn = list(case.get("crn", []))
     uids = case.get("uids") or list(range(len(case["assign"])))
@@ -429,8 +485,12 @@ def execute_machine(case):
             draws = {}
             for si, st in enumerate(objs):
                 draws[si] = {}
+                stream = stream_of(st)
+                if stream is None:
+                    log["errors"].append("UNOBSERVABLE: the transition set's randomness stream was not found")
+                    return
                 for l in labs:
-                    x = float(st.transition_set.random.get_draw(pd.Index([l], dtype="int64")).iloc[0])
+                    x = float(stream.get_draw(pd.Index([l], dtype="int64")).iloc[0])
                     draws[si][l] = int(x * B53)
                     if draws[si][l] / B53 != x:
                         log["errors"].append("a draw is not a multiple of 2^-53")
@@ -459,12 +519,21 @@ def execute_machine(case):
                 for l in idx[:1] + idx[-1:]:
                     local["alone"][l] = self._attempt(before, pd.Index([l], dtype="int64"), event)
             err = None
+            rec_hooks.update(on=True, side=[], cleanup=[])
             try:
                 machine.transition(request_index(call), event.time)
             except Exception as e:
                 err = e
             after = sim.get_population(untracked=True).copy()
-            log["calls"].append({"draws": draws, "nums": nums, "before": before, "after": after, "err": err, "local": local})
+            cerr = None
+            try:
+                machine.cleanup(request_index(call), event.time)
+            except Exception as e:
+                cerr = e
+            rec_hooks["on"] = False
+            log["calls"].append({"draws": draws, "nums": nums, "before": before, "after": after, "err": err, "local": local,
+                                 "side": list(rec_hooks["side"]), "cleanup": list(rec_hooks["cleanup"]), "cleanup_err": cerr,
+                                 "after_cleanup": sim.get_population(untracked=True).copy()})
 
     drv = C17Driver()
     sim = SimulationContext(components=[drv, machine], configuration={
@@ -512,6 +581,9 @@ def run_machine(case):
         if len(msgs) < 6:
             msgs.append(m)
 
+    if any(e.startswith("UNOBSERVABLE") for e in log["errors"]):
+        # the harness could not reach what it needs through public names or by type: skip and count, never alarm
+        return Result(ok=True, coq=None, key=None, obs={"skipped": log["errors"][:3]}, tags=("unobservable_skipped",))
     for e in log["errors"]:
         fail("harness: " + e)
     if len(log["calls"]) != len(case["calls"]):
@@ -566,10 +638,10 @@ def run_machine(case):
         near = []
 
         def own(si, l, depth=0):
-            """('ok', final state index or None = stays) | ('bad', reason)"""
+            """('ok', final state index or None = stays, [states written, in order]) | ('bad', reason)"""
             s = states[si]
             if not s["trans"]:
-                return ("ok", None)
+                return ("ok", None, [])
             row = eff(si, l)
             ws = py_weights(row, B53, s["null"])
             if ws is None:
@@ -586,7 +658,7 @@ def run_machine(case):
             if ws[k] == 0 and not (a == 0 and k == 0):
                 return ("bad", f"interval rule selected a zero weight?! {ws} {a}")
             if k == len(targets):
-                return ("ok", None)                       # null transition
+                return ("ok", None, [])                   # null transition
             j = targets[k]
             if states[j]["transient"]:
                 if depth > ns + 1:
@@ -594,11 +666,12 @@ def run_machine(case):
                 r = own(j, l, depth + 1)
                 if r[0] == "bad":
                     return r
-                return ("ok", j if r[1] is None else r[1])
-            return ("ok", j)
+                return ("ok", j if r[1] is None else r[1], [j] + r[2])
+            return ("ok", j, [j])
 
         expect_err = None
         expected = {}
+        trails = {}
         for l in range(n):
             si = ids.get(st_before[l], 99)
             if l in call["idx"] and tracked[l] and si != 99:
@@ -610,8 +683,10 @@ def run_machine(case):
                     expected[l] = None
                 else:
                     expected[l] = si if r[1] is None else r[1]
+                    trails[l] = r[2]
             else:
                 expected[l] = si
+                trails[l] = []
         if near:
             skipped = True
         if (expect_err is not None) != (code != 0):
@@ -633,6 +708,31 @@ def run_machine(case):
                          f"{draws[si][l]}/2^53 select {sname(expected[l]) if expected[l] is not None else None}")
                 if sa == si and si not in successors(si) and not (states[si]["null"] or not states[si]["trans"]):
                     fail(f"call {ci}: simulant {l} stayed in {st_before[l]} which allows no self transition")
+        # hooks: transition_side_effect exactly once per write, after it, never for the unmoved; cleanup_effect once, by
+        # the state the simulant is in
+        if not rec["after_cleanup"].equals(after):
+            fail(f"call {ci}: Machine.cleanup changed the state table")
+        if rec["cleanup_err"] is not None:
+            fail(f"call {ci}: Machine.cleanup raised {rec['cleanup_err']!r}")
+        for name, members, seen in rec["side"]:
+            if any(x != name for x in seen):
+                fail(f"call {ci}: the side-effect hook of {name} ran for {members} whose state column read {seen} (before the write?)")
+            for l in members:
+                if not (l in call["idx"] and tracked[l]):
+                    fail(f"call {ci}: the side-effect hook of {name} was handed simulant {l}, which is not in the tracked request")
+        if code == 0 and not near:
+            for l in range(n):
+                got = [ids.get(name, 98) for name, members, _ in rec["side"] if l in members]
+                want = list(trails.get(l, []))
+                if got != want:
+                    fail(f"call {ci}: simulant {l} was seen by the side-effect hooks of {[sname(x) for x in got]}; the states it "
+                         f"was written into are {[sname(x) for x in want]}")
+        for l in range(n):
+            got = [name for name, members in rec["cleanup"] if l in members]
+            sa_name = st_after[l]
+            want = [sa_name] if (l in call["idx"] and tracked[l] and sa_name in ids and ids[sa_name] != 99) else []
+            if got != want:
+                fail(f"call {ci}: cleanup hooks that were handed simulant {l}: {got}, expected {want}")
         # C17_local, directly on the implementation: same request in another order / a simulant on its own
         if rec.get("local"):
             tags.append("local_checked")
@@ -667,8 +767,16 @@ def run_machine(case):
         dr = clist(cpair(z(si), clist(cpair(z(l), z(draws[si][l])) for l in range(n))) for si in range(ns) if states[si]["trans"])
         rows = clist(cpair(z(l), cbool(tracked[l]), z(ids.get(st_before[l], 99))) for l in range(n))
         aft = clist(cpair(z(l), z(ids.get(st_after[l], 98))) for l in range(n))
-        coq_calls.append("(" + cpair(z(B53), z(null_rank), clist(sts), z(B53), dr, rows, zl(call["idx"]), nat(ns + 2), z(code), aft)
-                         + " : machine_case)")
+        # groups as sorted sets (repeats and order inside a group are not constrained)
+        hk = clist(cpair(z(ids.get(name, 98)), zl(sorted(set(members))), cbool(all(x == name for x in seen)))
+                   for name, members, seen in rec["side"])
+        cl = clist(cpair(z(ids.get(name, 98)), zl(sorted(set(members)))) for name, members in rec["cleanup"])
+        coq_calls.append("(" + cpair(z(B53), z(null_rank), clist(sts), z(B53), dr, rows, zl(call["idx"]), nat(ns + 2), z(code), aft,
+                                     hk, cl) + " : machine_case)")
+        if len(set(call["idx"])) != len(call["idx"]):
+            tags.append("duplicate_labels")
+        if rec["side"]:
+            tags.append("hooks_ran")
         tags.append(f"code{code}")
         tags.append(f"order_{call.get('order', 'plain')}")
         if call.get("births"):
@@ -784,9 +892,34 @@ def run_tset(case):
         def get_draw(self, index, additional_key=None):
             return draw_series.loc[index]
 
-    ts.random = StubStream("c17_tset", lambda: 0, 0, None)
+    stub = StubStream("c17_tset", lambda: 0, 0, None)
+
+    class _StubRandomness:
+        def get_stream(self, *a, **k):
+            return stub
+
+    class _StubBuilder:
+        """what TransitionSet.setup asks of a builder: builder.randomness.get_stream(name)"""
+        randomness = _StubRandomness()
+
+        def __getattr__(self, name):                 # anything else a future setup might touch: inert
+            class _Inert:
+                def __getattr__(self, n):
+                    return lambda *a, **k: None
+            return _Inert()
+
+    try:
+        ts.setup(_StubBuilder())                     # the public way a transition set gets its stream
+    except Exception:
+        pass
+    if stream_of(type("S", (), {"transition_set": ts})()) is not stub:
+        ts.random = stub                             # fall back to the attribute the code reads today
     code, decided, err = 0, [], None
     dup = len({t["to"] for t in case["trans"]}) != ntr
+    if dup and _groupby_new_state is None:
+        # two transitions into one output are refused by the (module-private) grouping step only; without it the case is
+        # not observable (the two decisions cannot be told apart either): skip and count
+        return Result(ok=True, coq=None, key=None, obs={"skipped": "grouping helper not found"}, tags=("unobservable_skipped",))
     grouping_wrong = None
     try:
         outputs, decisions = ts.choose_new_state(index)                # public
@@ -886,6 +1019,110 @@ def finding_of_tset(case, res):
     return None
 
 
+def shrink_machine(case):
+    """smaller variants of a machine case: fewer calls, no CRN / births / local check / ops / untracking, a shorter request,
+    one simulant less, plain `valid` rows"""
+    import copy
+    calls = case["calls"]
+    if len(calls) > 1:
+        c = copy.deepcopy(case); c["calls"] = c["calls"][:-1]; _trim_population(c); yield c
+        c = copy.deepcopy(case); c["calls"] = c["calls"][1:]
+        c["n"] = c["n"] + case["calls"][0].get("births", 0); yield c
+    if case.get("crn"):
+        c = copy.deepcopy(case); c["crn"] = []; yield c
+    for ci, call in enumerate(calls):
+        for key, empty in (("ops", []), ("untrack", []), ("retrack", []), ("local", False)):
+            if call.get(key):
+                c = copy.deepcopy(case); c["calls"][ci][key] = empty; yield c
+        for i in range(len(call["ops"])):
+            c = copy.deepcopy(case); del c["calls"][ci]["ops"][i]; yield c
+        if call.get("order") not in (None, "asc"):
+            c = copy.deepcopy(case); c["calls"][ci]["idx"] = sorted(call["idx"]); c["calls"][ci]["order"] = "asc"
+            c["calls"][ci]["split"] = 0; yield c
+        if len(call["idx"]) > 1:
+            h = len(call["idx"]) // 2
+            for part in (call["idx"][:h], call["idx"][h:]):
+                c = copy.deepcopy(case); c["calls"][ci]["idx"] = list(part); c["calls"][ci]["split"] = 0
+                c["calls"][ci]["order"] = "shuffled"; yield c
+        for i in range(len(call["idx"])):
+            c = copy.deepcopy(case); del c["calls"][ci]["idx"][i]
+            c["calls"][ci]["split"] = 0; c["calls"][ci]["order"] = "shuffled"; yield c
+    # drop the simulant with the highest label
+    total = len(case["assign"])
+    if total > 1:
+        c = copy.deepcopy(case)
+        last = total - 1
+        for ci in range(len(c["calls"]) - 1, -1, -1):
+            if c["calls"][ci].get("births", 0) > 0:
+                c["calls"][ci]["births"] -= 1
+                break
+        else:
+            c["n"] -= 1
+        if c["n"] >= 1:
+            c["assign"] = c["assign"][:last]; c["uids"] = (c.get("uids") or list(range(total)))[:last]
+            for call in c["calls"]:
+                call["rows"] = [per[:last] for per in call["rows"]]
+                call["idx"] = [l for l in call["idx"] if l != last]
+                call["untrack"] = [l for l in call["untrack"] if l != last]
+                call["retrack"] = [l for l in call["retrack"] if l != last]
+                call["ops"] = [[a, b2, on, [l for l in labs if l != last]] for a, b2, on, labs in call["ops"]]
+                call["split"] = 0
+                if call.get("order") == "append":
+                    call["order"] = "shuffled"
+            yield c
+    # plain rows
+    for ci, call in enumerate(calls):
+        for si, per in enumerate(call["rows"]):
+            for l, row in enumerate(per):
+                if row["kind"] not in ("valid", "zeros") and row["k"]:
+                    c = copy.deepcopy(case)
+                    c["calls"][ci]["rows"][si][l] = {"kind": "valid", "k": [4] + [0] * (len(row["k"]) - 1)}
+                    yield c
+    # drop the last transition of a state
+    for si, st in enumerate(case["states"]):
+        if st["trans"]:
+            c = copy.deepcopy(case)
+            ti = len(st["trans"]) - 1
+            del c["states"][si]["trans"][ti]
+            for call in c["calls"]:
+                call["rows"][si] = [{"kind": "valid", "k": [4] * ti if ti else []} for _ in call["rows"][si]]
+                call["ops"] = [o for o in call["ops"] if not (o[0] == si and o[1] == ti)]
+            yield c
+
+
+def _trim_population(c):
+    """after dropping calls: forget the simulants that would have been born in them"""
+    total = c["n"] + sum(call.get("births", 0) for call in c["calls"])
+    c["assign"] = c["assign"][:total]
+    if c.get("uids"):
+        c["uids"] = c["uids"][:total]
+
+
+def shrink_tset(case):
+    import copy
+    n = len(case["labels"])
+    for i in range(n):
+        c = copy.deepcopy(case)
+        lab = c["labels"][i]
+        for key in ("labels", "rows", "draws"):
+            del c[key][i]
+        for t in c["trans"]:
+            t["ops"] = [[on, [l for l in labs if l != lab]] for on, labs in t["ops"]]
+        yield c
+    for j, t in enumerate(case["trans"]):
+        if t["ops"]:
+            c = copy.deepcopy(case); c["trans"][j]["ops"] = c["trans"][j]["ops"][:-1]; yield c
+        if t["trigger"] is not None and not t["ops"]:
+            c = copy.deepcopy(case); c["trans"][j]["trigger"] = None; yield c
+    if len(case["trans"]) > 1:
+        j = len(case["trans"]) - 1
+        c = copy.deepcopy(case); del c["trans"][j]
+        c["rows"] = [r[:j] for r in c["rows"]]
+        for t in c["trans"]:
+            t["to"] = min(t["to"], j - 1)
+        yield c
+
+
 def _corpus(name):
     import json
     import os
@@ -902,9 +1139,9 @@ def streams(tier):
     imp = "From Viv Require Import Common StateMachine."
     return [
         Stream(name="machine", imports=imp, check="(forallb check_machine)", gen=gen_machine, run=run_machine,
-               n_quick=180, n_thorough=2000, corpus=lambda: _corpus("machine"),
+               n_quick=180, n_thorough=2000, corpus=lambda: _corpus("machine"), shrink=shrink_machine,
                doc="Machine.transition on real contexts with the draws of the real streams"),
         Stream(name="tset", imports=imp, check="check_tset", gen=gen_tset, run=run_tset, n_quick=500, n_thorough=6000,
-               corpus=lambda: _corpus("tset"), finding_of=finding_of_tset,
+               corpus=lambda: _corpus("tset"), finding_of=finding_of_tset, shrink=shrink_tset,
                doc="TransitionSet.choose_new_state with chosen draws (boundaries, 0.0)"),
     ]
